@@ -219,8 +219,9 @@ def item(draw, names, rich=True, keys=None, want_zid=None):
     if rich and zid and len(lines) > 1 and "words" in lines[0] and draw(st.integers(0, 11)) == 0:
         # the headline is nothing but the prefix fields (ZID, dates); the text lives in the bullets
         lines[0] = {"ind": "", "words": []}
-    if rich and len(lines) > 1 and lines[1]["ind"] in ("  * ", "  ") and draw(st.integers(0, 13)) == 0:
-        # an empty bullet right below the headline
+    if rich and len(lines) > 1 and "words" in lines[0] and lines[1]["ind"] in ("  * ", "  ") and draw(st.integers(0, 13)) == 0:
+        # an empty bullet right below the headline (not below a headline *property*: whether a bare "  *"
+        # ends that property's value is not specified anywhere)
         lines.insert(1, {"ind": "  *", "words": []})
     if len(lines) > 1 and draw(st.integers(0, 5)) == 0:
         # a line (not the last one) that ends in a blank: part of the body, verbatim
